@@ -326,7 +326,30 @@ def _mixed(ctx, **params):
     return h_bmc(ctx, **params)
 
 
+def _recv_jobs(tier):
+    from .c01_reliable import _recv_jobs as jobs
+
+    js = jobs(tier)
+    return [j for j in js if not j["unord"]][:3] if tier == "quick" else [j for j in js if not j["unord"]]
+
+
+def _recv(ctx, **params):
+    from .c01_reliable import h_recv_bmc
+
+    return h_recv_bmc(ctx, **params)
+
+
 HARNESSES = {
+    "recv-delivery": Harness(
+        "recv-delivery",
+        _recv,
+        _recv_jobs,
+        style="BMC",
+        bounds="receiver side of 'everything sent is delivered': the C01 receive BMC (<=4 chunks incl. fragmented messages followed by another message, 4 (quick) / 5-6 solver-chosen arrivals with loss, duplication and reordering, then everything arrives) on ordered streams",
+        encoded=["aiortc.rtcsctptransport:RTCSctpTransport._receive_data_chunk", "aiortc.rtcsctptransport:InboundStream.add_chunk", "aiortc.rtcsctptransport:InboundStream.pop_messages"],
+        twin="everything-arrived",
+        opts={"samples": 1},
+    ),
     "mixed-pr": Harness(
         "mixed-pr",
         _mixed,
